@@ -27,13 +27,13 @@ INSTANCES = (
     + [C('sasl_response_c%d' % c, 'sasl_response', c, tiers=(Q if (c < 8 and c != 3) or c in (14, 21) else T),
          bound=B_STATE + '<response xmlns=%s> with 1..4 payload bytes; exchange state: %s%s; recorded user 0..2 ASCII units; DIGEST-MD5 directives of fixed lengths 1..4 bytes' % ('sasl2' if c & 8 else 'sasl', RESP[c & 7], ', digest left over from an earlier round' if c & 16 else ''))
        for c in list(range(16)) + [21, 29]]
-    + [C('digest_reply_c%d' % c, 'digest_reply', c, unwind=12, tiers=(Q if c != 3 else T),
+    + [C('digest_reply_c%d' % c, 'digest_reply', c, unwind=12, mem_gb=(4 if c & 2 else 3), tiers=(Q if c != 3 else T),
          bound=B_STATE + 'pending DIGEST-MD5 exchange at step 1 (%s), directives realm/digest-uri/nc/cnonce 1 byte, username 2, qop "auth" or 4 arbitrary bytes, response 4 arbitrary bytes; reply = ARBITRARY pair (error in {NoError, AuthorizationError, TemporaryError}, digest %s); MD5 = recording oracle with 2-byte digests' % ('SASL2' if c & 1 else 'SASL', '2 arbitrary bytes' if c & 2 else 'empty'))
        for c in (0, 1, 2, 3)]
     + [I('reply_foreign_sender', 'reply_foreign_sender', mem_gb=2, bound=B_STATE + 'finished() slot invoked with sender() null or not a password reply'),
        I('sasl_misc', 'sasl_misc', mem_gb=2, bound=B_STATE + 'pending PLAIN exchange; element abort | authenticate@sasl | success in the SASL / SASL2 namespace'),
        I('stream_open', 'stream_open', mem_gb=2, loop_bounds={r'^_ZNSt6ranges14__copy_or_move': 240}, bound=B_STATE + 'pending exchange or none; <stream:stream to=X> with X 0..2 arbitrary units'),
-       I('reply_race', 'reply_race', known_finding=KF_RACE, mem_gb=6, cdefs={'VP_ACTIVATE_HOOK': 'c16_on_signal', 'LIST_CAP': 7}, bound='unauthenticated connection; two pipelined <auth mechanism=PLAIN> with messages NUL u NUL p (u, p one arbitrary ASCII byte each); the checker approves the first request'),
+       I('reply_race', 'reply_race', known_finding=KF_RACE, mem_gb=3, cdefs={'VP_ACTIVATE_HOOK': 'c16_on_signal', 'LIST_CAP': 7}, bound='unauthenticated connection; two pipelined <auth mechanism=PLAIN> with the concrete messages NUL a NUL x and NUL b NUL y (domain arbitrary); the checker approves the first request'),
        ] + [C('digest_default_c%d' % c, 'digest_default', c, mem_gb=2, bound='user, domain 1 ASCII unit, stored password %d ASCII units; getPassword result NoError | AuthorizationError | TemporaryError; MD5 = recording oracle' % c) for c in range(3)] + [
        I('checker_default', 'checker_default', mem_gb=2, bound='user, password, stored password <= 2 arbitrary UTF-16 units, domain <= 1; getPassword result NoError | AuthorizationError | TemporaryError')]
 )
@@ -53,7 +53,7 @@ SPEC = dict(
         'thorough tier adds the SASL2 twins of every <response/> state, the remaining mechanism names and client_auth_drop; bounds are the same',
     ],
     assumptions=[
-        'inductive reading: every instance starts from an arbitrary state, so the per-event claims hold along every event sequence; the only state invariant used is "a DIGEST-MD5 object is at step 2 only after a response was verified", which digest_reply_* establish (step 1 -> 2 iff the response equals the RFC 2831 digest) and no other event sets',
+        'inductive reading: every instance starts from an arbitrary state, so the per-event claims hold along every event sequence; the only state invariant used is "a DIGEST-MD5 object is at step 2 only after a response was verified", which digest_reply_* establish (step 1 -> 2 iff the checker reply reports NoError AND the response equals the RFC 2831 digest over the delivered secret; the reply is an arbitrary (error, digest) pair) and no other event sets; digest_default_* show that the default getDigest delivers a digest only for a successful lookup',
         'QXmppIncomingClient lives in raw storage: QObject part from the shared QObject model, QXmppIncomingClientPrivate built by its real constructor; XmppSocket constructor/sendData/disconnectFromHost, QSslSocket::flush/startServerEncryption and QTimer::start/stop/singleShot are ghost logs/no-ops; every socket write succeeds or fails nondeterministically',
         'signals go through the real moc code into QMetaObject::activate (shared model): emissions are counted per signal; the element handed to routing is compared by node identity with the received one (QDomElement is an explicitly shared handle: stamping happens in place), its from attribute is read after the call',
         'QXmppLoggable: logMessage / updateCounter / setGauge have no effect; log and stream-error texts are not built (QString::arg on patterns > 8 units returns an empty string); QString::arg substitutes exactly for the short JID patterns "%1@%2" and "%1/%2"; QXmppIncomingClientPrivate::origin() (log text) and QXmppIncomingClient::sendStreamFeatures() (content of <stream:features/>) are cut, the latter is counted',
